@@ -151,6 +151,7 @@ func c01FreshBuf(c *Ctx) {
 			loopFns = append(loopFns, fn)
 			loopFns = append(loopFns, fn.AnonFuncs...)
 		}
+		loopFns = uniqFns(loopFns)
 		for _, fn := range loopFns {
 			for _, b := range fn.Blocks {
 				for _, in := range b.Instrs {
